@@ -143,7 +143,7 @@ def run(tier):
         unbalanced_run += r["stats"].get("unbalanced_run", 0)
         levels[f"{name}/N={N}"] = r["levels"]
     # (c), (d)
-    pool = progpool.build_pool(tier, parts=("A", "M", "K1") if quick else ("A", "M", "K1"))
+    pool = progpool.build_pool(tier, parts=("A", "M", "K1"), model_tier="quick")
     small = [(f"K:{n}", " ".join(t) + " ") for n, t in corpus.small_corpus_tokens(60 if quick else 800)]
     pool = sorted(pool + small, key=lambda x: (len(x[1]), x[1]))
     # bound the mutation part by program size (characters of the single-space rendering)
